@@ -94,10 +94,15 @@ let lst o = match o with Some l -> l | None -> []
 (* ---- printing, same text as the harness ---- *)
 let path_str (((a, b), c) : (n * n) * n) = Printf.sprintf "%s.%s.%s" (string_of_n a) (string_of_n b) (string_of_n c)
 
+(* the marker of a streamed list that has no elements is, byte for byte, the complete (empty) list:
+   the harness cannot tell them apart and prints 'v'; so does the model side *)
+let empty_lists : (((n * n) * n), unit) Hashtbl.t = Hashtbl.create 16
+
 let atom_str (a : atom) =
   match a with
   | AWhole (p, sz) -> Printf.sprintf "v%s/%s" (path_str p) (string_of_n sz)
-  | AMarker (p, sz) -> Printf.sprintf "k%s/%s" (path_str p) (string_of_n sz)
+  | AMarker (p, sz) ->
+      Printf.sprintf "%s%s/%s" (if Hashtbl.mem empty_lists p then "v" else "k") (path_str p) (string_of_n sz)
   | AElem (p, idx, sz) -> Printf.sprintf "x%s.%s/%s" (path_str p) (string_of_n idx) (string_of_n sz)
   | AStatus (p, code, sz) -> Printf.sprintf "t%s.%s/%s" (path_str p) (string_of_n code) (string_of_n sz)
   | AEvent (num, sz) -> Printf.sprintf "n%s/%s" (string_of_n num) (string_of_n sz)
@@ -115,7 +120,14 @@ let view_str (v : view) =
     (String.concat "," (List.map atom_str (lst v.v_attrs)))
     (String.concat "," (List.map atom_str (lst v.v_events)))
 
+let note_empty_lists (c : case) =
+  Hashtbl.reset empty_lists;
+  List.iter (fun cl ->
+    List.iter (fun (id, sp) ->
+      match sp with SList [] -> Hashtbl.replace empty_lists ((cl.cl_ep, cl.cl_id), id) () | _ -> ()) cl.cl_attrs) c.nd
+
 let run_model (c : case) =
+  note_empty_lists c;
   let cf = cfg_of c in
   let items = items_of c.nd c.f (lst c.q) in
   let stats = ev_statuses_of c.nd (lst c.p) in
